@@ -16,6 +16,7 @@
    The LIMIT / OFFSET / FETCH tail computed from `q_takes` is C07's Model/SelectClauses.v (imported by the check, not redone).
    Executable definitions only. *)
 From Coq Require Import List Bool.
+From PV Require Import Model.SplitBase.
 Import ListNotations.
 
 Section Pluck.
@@ -53,10 +54,39 @@ Section Pluck.
               (last_opt (sorts p)) (takes p)
               (existsb (fun t => match t with QDistinct => true | _ => false end) p) (distinct_ons p).
 
+  (* ---- sort inference re-emits the sorting in front of every Take and at the end of the main query, so real pipelines look
+     like [.. Sort k; Take; Sort k; Take; Sort k].  A Sort equal to the one in effect, with only order-retaining transforms
+     (takes, filters, DISTINCT; From / Join / Select carry no rows of their own here) in between, does nothing:
+     `drop_resorts` removes it.  `same` decides equality of sort keys. *)
+  Variable same : S -> S -> bool.
+  Fixpoint drop_resorts (cur : option S) (p : list pt) : list pt :=
+    match p with
+    | [] => []
+    | QSort s :: r =>
+        match cur with
+        | Some c => if same c s then drop_resorts cur r else QSort s :: drop_resorts (Some s) r
+        | None => QSort s :: drop_resorts (Some s) r
+        end
+    | QAggregate g :: r => QAggregate g :: drop_resorts None r
+    | QDistinctOn d :: r => QDistinctOn d :: drop_resorts None r
+    | QUnion :: r => QUnion :: drop_resorts None r
+    | QOther :: r => QOther :: drop_resorts None r
+    | t :: r => t :: drop_resorts cur r
+    end.
+
   (* ---- side conditions of the soundness theorem (Proofs/PluckSound.v), judged on every logged pipeline ---- *)
   (* From / Join / Select contribute no clause here; DISTINCT ON, set operations and loops are outside Theta-2 *)
   Definition supported (p : list pt) : bool :=
     forallb (fun t => match t with QDistinctOn _ | QUnion | QOther => false | _ => true end) p.
+  (* the kinds Theta-2 sees (Proofs/PluckSound.v: map kind_d (to_trd p) = kinds_theta p) *)
+  Definition kinds_theta (p : list pt) : list kind :=
+    flat_map (fun t => match t with QFilter _ => [KFilter] | QSort _ => [KSort] | QAggregate _ => [KAggregate] | QTake _ => [KTake]
+                               | QDistinct => [KDistinct] | _ => [] end) p.
+  (* all hypotheses of c01_pluck_sound_resorted that can be judged on a logged pipeline *)
+  Definition theorem_applies (p : list pt) : bool * bool * bool * bool :=
+    let q := drop_resorts None p in
+    (clause_ordered (kinds_theta q), supported q, Nat.leb (length (aggregates q)) 1,
+     let '(b, a) := break_up q in match a with [] => true | _ => match sorts b with [] => true | _ => false end end).
   Definition one_agg (p : list pt) : bool := Nat.leb (length (aggregates p)) 1.
   (* no Sort in front of the Aggregate (sort inference never leaves one there: it records sorts and clears them at an Aggregate) *)
   Definition sorts_behind_agg (p : list pt) : bool :=
